@@ -17,7 +17,7 @@ def consts(cfg, opens, updates, garbage, stops, depth, sessions=2, pols=(), orig
             "MaxDepth": depth, "MaxSessions": sessions, "Pols": set(pols), "Origs": set(origs)}
 
 
-def run_family(ctx, label, c, budget, design=True, sim=None, allpaths=False):
+def run_family(ctx, label, c, budget, design=True, sim=None, allpaths=False, keep=None):
     if design:
         ctx.design("BGPFSM", vf.cfg_text(constants=dict(c, MaxDepth=99), invariants=INV, properties=PROPS, view="View"),
                    label="design " + label, timeout=3000)
@@ -26,7 +26,11 @@ def run_family(ctx, label, c, budget, design=True, sim=None, allpaths=False):
                 label="gen " + label, timeout=3000)
     if not r.ok:
         raise vf.Infra("BGPFSM violates its invariants: %s" % r.violation)
-    behs = vf.subsample(ctx.rng, r.behaviours, budget)
+    if keep:      # behaviours that are always replayed; the budget is for the rest
+        must = [b for b in r.behaviours if keep(b)]
+        behs = must + vf.subsample(ctx.rng, [b for b in r.behaviours if not keep(b)], max(0, budget - len(must)))
+    else:
+        behs = vf.subsample(ctx.rng, r.behaviours, budget)
     if sim:
         rs = ctx.simulate("BGPFSM", vf.cfg_text(next="NextSim", constants=dict(c, MaxDepth=sim[1], MaxSessions=3)), num=sim[0], depth=sim[1],
                           label="sim " + label)
